@@ -94,6 +94,153 @@ theorem txnProcessor_spec (cfg : Cfg) (date : Int) (g : GS) (p : PTxn) :
                    byteSize := g.byteSize + p.bytes + p.outLen g.st } p
         exact ⟨rfl, ⟨hany', classify_current _ _ _ _ _ hc, hr, h1, h2, h3, h4⟩⟩
 
+/-! ### provenance: what waits in the future lists and in the promoted list came through `txnProcessor` -/
+
+theorem mem_insertStable {α : Type} (less : α → α → Bool) (x y : α) : ∀ (l : List α), y ∈ insertStable less x l → y = x ∨ y ∈ l := by
+  intro l
+  induction l with
+  | nil => intro h; simp [insertStable] at h; exact Or.inl h
+  | cons e es ih =>
+    intro h
+    simp only [insertStable] at h
+    split at h
+    · rw [List.mem_cons] at h; exact h
+    · rw [List.mem_cons] at h
+      rcases h with h | h
+      · exact Or.inr (List.mem_cons.mpr (Or.inl h))
+      · rcases ih h with h | h
+        · exact Or.inl h
+        · exact Or.inr (List.mem_cons_of_mem _ h)
+
+theorem mem_foldl_insertStable {α : Type} (less : α → α → Bool) (y : α) : ∀ (l acc : List α),
+    y ∈ l.foldl (fun acc x => insertStable less x acc) acc → y ∈ acc ∨ y ∈ l := by
+  intro l
+  induction l with
+  | nil => intro acc h; exact Or.inl h
+  | cons x xs ih =>
+    intro acc h
+    simp only [List.foldl_cons] at h
+    rcases ih _ h with h | h
+    · rcases mem_insertStable less x y acc h with h | h
+      · exact Or.inr (by rw [h]; exact List.mem_cons_self ..)
+      · exact Or.inl h
+    · exact Or.inr (List.mem_cons_of_mem _ h)
+
+theorem mem_sortStable {α : Type} (less : α → α → Bool) (y : α) (l : List α) (h : y ∈ sortStable less l) : y ∈ l := by
+  rcases mem_foldl_insertStable less y l [] h with h | h
+  · cases h
+  · exact h
+
+theorem scan_mem (y : PTxn) : ∀ (l : List PTxn) (cn : Int), (y ∈ (scan l cn).cur → y ∈ l) ∧ (y ∈ (scan l cn).rest → y ∈ l) := by
+  intro l
+  induction l with
+  | nil => intro cn; simp [scan]
+  | cons f fs ih =>
+    intro cn
+    simp only [scan]
+    split
+    · simp
+    · split
+      · obtain ⟨h1, h2⟩ := ih cn
+        exact ⟨fun h => List.mem_cons_of_mem _ (h1 h), fun h => List.mem_cons_of_mem _ (h2 h)⟩
+      · obtain ⟨h1, h2⟩ := ih f.txn.nonce
+        refine ⟨fun h => ?_, fun h => List.mem_cons_of_mem _ (h2 h)⟩
+        rw [List.mem_cons] at h
+        rcases h with h | h
+        · rw [h]; exact List.mem_cons_self ..
+        · exact List.mem_cons_of_mem _ (h1 h)
+
+theorem futGet_mem : ∀ (f : List (Id × Fut)) (i : Id) (v : Fut), futGet f i = some v → ∃ k, (k, v) ∈ f := by
+  intro f
+  induction f with
+  | nil => intro i v h; simp [futGet] at h
+  | cons x xs ih =>
+    intro i v h
+    obtain ⟨k, w⟩ := x
+    simp only [futGet] at h
+    split at h
+    · injection h with h; subst h; exact ⟨k, List.mem_cons_self ..⟩
+    · obtain ⟨k', hk'⟩ := ih i v h
+      exact ⟨k', List.mem_cons_of_mem _ hk'⟩
+
+theorem futSet_mem (kv : Id × Fut) : ∀ (f : List (Id × Fut)) (i : Id) (v : Fut), kv ∈ futSet f i v → kv ∈ f ∨ kv.2 = v := by
+  intro f
+  induction f with
+  | nil => intro i v h; simp [futSet] at h; exact Or.inr (by rw [h])
+  | cons x xs ih =>
+    intro i v h
+    obtain ⟨k, w⟩ := x
+    simp only [futSet] at h
+    split at h
+    · rw [List.mem_cons] at h
+      rcases h with h | h
+      · exact Or.inr (by rw [h])
+      · exact Or.inl (List.mem_cons_of_mem _ h)
+    · rw [List.mem_cons] at h
+      rcases h with h | h
+      · exact Or.inl (by rw [h]; exact List.mem_cons_self ..)
+      · rcases ih i v h with h | h
+        · exact Or.inl (List.mem_cons_of_mem _ h)
+        · exact Or.inr h
+
+/-- every transaction waiting in the promoted list or in a future list satisfies `P`. -/
+def Prov (P : PTxn → Prop) (g : GS) : Prop :=
+  (∀ p ∈ g.current, P p) ∧ (∀ kv ∈ g.future, ∀ p ∈ kv.2.txns, P p)
+
+theorem checkForCurrent_prov (P : PTxn → Prop) (g : GS) (p : PTxn) (h : Prov P g) : Prov P (checkForCurrent g p) := by
+  unfold checkForCurrent
+  split
+  · exact h
+  · rename_i l hl
+    split
+    · exact h
+    · rename_i x xs hx
+      obtain ⟨k, hk⟩ := futGet_mem _ _ _ hl
+      have hP : ∀ q ∈ l.txns, P q := h.2 _ hk
+      refine ⟨?_, ?_⟩
+      · intro q hq
+        have := mem_sortStable _ _ _ hq
+        rw [List.mem_append] at this
+        rcases this with hq | hq
+        · exact h.1 q hq
+        · exact hP q ((scan_mem q l.txns p.txn.nonce).1 hq)
+      · intro kv hkv q hq
+        rcases futSet_mem kv _ _ _ hkv with hkv | hkv
+        · exact h.2 kv hkv q hq
+        · rw [hkv] at hq
+          exact hP q ((scan_mem q l.txns p.txn.nonce).2 hq)
+
+theorem txnProcessor_prov (P : PTxn → Prop) (cfg : Cfg) (date : Int) (g : GS) (p : PTxn) (h : Prov P g) (hp : P p) :
+    Prov P (txnProcessor cfg date g p).1 := by
+  unfold txnProcessor
+  split
+  · exact h
+  · rcases hc : classify cfg.tol date g.st p with ⟨c, n⟩
+    cases c with
+    | past => exact h
+    | late => exact h
+    | future =>
+      refine ⟨h.1, ?_⟩
+      intro kv hkv q hq
+      rcases futSet_mem kv _ _ _ hkv with hkv | hkv
+      · exact h.2 kv hkv q hq
+      · rw [hkv] at hq
+        have := mem_sortStable _ _ _ hq
+        rw [List.mem_append] at this
+        rcases this with hq | hq
+        · cases hg : futGet g.future p.txn.sender with
+          | none => simp [hg] at hq
+          | some l =>
+            simp only [hg, Option.getD_some] at hq
+            obtain ⟨k, hk⟩ := futGet_mem _ _ _ hg
+            exact h.2 _ hk q hq
+        · simp at hq; rw [hq]; exact hp
+    | current =>
+      simp only
+      split
+      · exact h
+      · exact checkForCurrent_prov P _ p h
+
 /-! ### re-execution -/
 
 theorem reexec_append (feeOn : Bool) (e : Entry) : ∀ (l : List Entry) (s s1 : St) (sts : List Status) (tr : List St),
@@ -165,21 +312,22 @@ structure Inv (cfg : Cfg) (date : Int) (prior : St) (bcost : Int) (g : GS) : Pro
   keys : ∀ e ∈ g.incl, e.key = Key.pool e.p.key
   nodup : (g.incl.map (·.key)).Nodup
   good : ∀ e ∈ g.incl, lateAt cfg.tol date e.p = false ∧ e.p.cost.isSome
+  names : ∀ e ∈ g.incl, e.p.bname = none
   costW : g.cost = wrap64 (bcost + costSum g.incl)
   costLt : g.incl ≠ [] → g.cost < cfg.maxBlockCost
   costT : 0 ≤ bcost → bcost ≤ cfg.maxBlockCost → cfg.maxBlockCost < two62 → (∀ e ∈ g.incl, small e) →
     g.cost = bcost + costSum g.incl
 
 theorem Inv_init (cfg : Cfg) (date : Int) (prior : St) (bcost : Int) (hb : wrap64 bcost = bcost) : Inv cfg date prior bcost (GS.init prior bcost) := by
-  refine ⟨by simp [GS.init, reexec], by simp [GS.init], by simp [GS.init], by simp [GS.init], ?_, by simp [GS.init], ?_⟩
+  refine ⟨by simp [GS.init, reexec], by simp [GS.init], by simp [GS.init], by simp [GS.init], by simp [GS.init], ?_, by simp [GS.init], ?_⟩
   · simp [GS.init, costSum, hb]
   · intros; simp [GS.init, costSum]
 
 theorem Inv_unchanged {cfg : Cfg} {date : Int} {prior : St} {bcost : Int} {g g' : GS} (h : Inv cfg date prior bcost g) (u : Unchanged g g') :
     Inv cfg date prior bcost g' := by
-  obtain ⟨h1, h2, h3, h4, h5, h6, h7⟩ := h
+  obtain ⟨h1, h2, h3, h4, hn, h5, h6, h7⟩ := h
   obtain ⟨u1, u2, u3, u4⟩ := u
-  exact ⟨by rw [u2, u1, u3]; exact h1, by rw [u2]; exact h2, by rw [u2]; exact h3, by rw [u2]; exact h4,
+  exact ⟨by rw [u2, u1, u3]; exact h1, by rw [u2]; exact h2, by rw [u2]; exact h3, by rw [u2]; exact h4, by rw [u2]; exact hn,
     by rw [u4, u2]; exact h5, by rw [u2, u4]; exact h6, by rw [u2, u4]; exact h7⟩
 
 theorem any_false_not_mem (l : List Entry) (k : Key) (h : l.any (fun e => e.key = k) = false) : k ∉ l.map (·.key) := by
@@ -191,12 +339,12 @@ theorem any_false_not_mem (l : List Entry) (k : Key) (h : l.any (fun e => e.key 
 
 /-- accepting `p` with estimate `c` (after the generator's cost test) keeps the invariant. -/
 theorem Inv_accept {cfg : Cfg} {date : Int} {prior : St} {bcost : Int} {g g1 : GS} {p : PTxn} {c : Int}
-    (h : Inv cfg date prior bcost g) (a : Accepted cfg date g p g1) (hc : p.cost = some c)
+    (h : Inv cfg date prior bcost g) (a : Accepted cfg date g p g1) (hc : p.cost = some c) (hbn : p.bname = none)
     (hlt : ¬ (wrap64 (g.cost + c) ≥ cfg.maxBlockCost)) :
     Inv cfg date prior bcost { g1 with cost := wrap64 (g1.cost + c) } := by
-  obtain ⟨h1, h2, h3, h4, h5, h6, h7⟩ := h
+  obtain ⟨h1, h2, h3, h4, hn, h5, h6, h7⟩ := h
   have hcost : g1.cost = g.cost := a.cost
-  refine ⟨?_, ?_, ?_, ?_, ?_, ?_, ?_⟩
+  refine ⟨?_, ?_, ?_, ?_, ?_, ?_, ?_, ?_⟩
   · show reexec cfg.feeOn prior g1.incl = some (g1.st, g1.incl.map (·.status), g1.trace)
     rw [a.incl, a.st, a.trace]
     have := reexec_append cfg.feeOn ⟨Key.pool p.key, p, (step cfg.feeOn g.st p.txn (p.res g.st)).2⟩ g.incl prior g.st _ _ h1 a.applied
@@ -220,6 +368,12 @@ theorem Inv_accept {cfg : Cfg} {date : Int} {prior : St} {bcost : Int} {g g1 : G
     rcases he with he | he
     · exact h4 e he
     · simp at he; subst he; exact ⟨a.notLate, by simp [hc]⟩
+  · show ∀ e ∈ g1.incl, e.p.bname = none
+    rw [a.incl]; intro e he
+    rw [List.mem_append] at he
+    rcases he with he | he
+    · exact hn e he
+    · simp at he; subst he; exact hbn
   · show wrap64 (g1.cost + c) = wrap64 (bcost + costSum g1.incl)
     rw [a.incl, costSum_append, hcost, h5, wrap64_add_wrap64]
     simp only [hc, Option.getD_some]
@@ -260,66 +414,79 @@ theorem Inv_accept {cfg : Cfg} {date : Int} {prior : St} {bcost : Int} {g g1 : G
     · omega
     · unfold two62 at hm hc1; omega
 
-theorem iterHandler_inv {cfg : Cfg} {date : Int} {prior : St} {bcost : Int} {g : GS} (p : PTxn) (h : Inv cfg date prior bcost g) :
-    Inv cfg date prior bcost (iterHandler cfg date g p).1 := by
+theorem iterHandler_inv {cfg : Cfg} {date : Int} {prior : St} {bcost : Int} {g : GS} (p : PTxn) (h : Inv cfg date prior bcost g)
+    (hv : Prov (fun q => q.bname = none) g) :
+    Inv cfg date prior bcost (iterHandler cfg date g p).1 ∧ Prov (fun q => q.bname = none) (iterHandler cfg date g p).1 := by
   unfold iterHandler
   split
-  · exact Inv_unchanged h ⟨rfl, rfl, rfl, rfl⟩
-  · split
-    · exact h
-    · rename_i c hc
-      split
-      · exact Inv_unchanged h ⟨rfl, rfl, rfl, rfl⟩
-      · split
-        · exact h
-        · rename_i hlt
-          rcases txnProcessor_spec cfg date g p with ⟨hf, hu⟩ | ⟨ht, ha⟩
-          · simp only [hf, Bool.not_false, if_true]
-            exact Inv_unchanged h hu
-          · simp only [ht, Bool.not_true, Bool.false_eq_true, if_false]
-            have := Inv_accept h ha hc hlt
-            split <;> exact this
+  · exact ⟨h, hv⟩
+  · rename_i hb
+    have hbn : p.bname = none := by
+      cases hx : p.bname with
+      | none => rfl
+      | some k => simp [hx] at hb
+    split
+    · exact ⟨Inv_unchanged h ⟨rfl, rfl, rfl, rfl⟩, hv⟩
+    · split
+      · exact ⟨h, hv⟩
+      · rename_i c hc
+        split
+        · exact ⟨Inv_unchanged h ⟨rfl, rfl, rfl, rfl⟩, hv⟩
+        · split
+          · exact ⟨h, hv⟩
+          · rename_i hlt
+            have hv' := txnProcessor_prov (fun q => q.bname = none) cfg date g p hv hbn
+            rcases txnProcessor_spec cfg date g p with ⟨hf, hu⟩ | ⟨ht, ha⟩
+            · simp only [hf, Bool.not_false, if_true]
+              exact ⟨Inv_unchanged h hu, hv'⟩
+            · simp only [ht, Bool.not_true, Bool.false_eq_true, if_false]
+              have := Inv_accept h ha hc hbn hlt
+              split <;> exact ⟨this, hv'⟩
 
 theorem iterate_inv {cfg : Cfg} {date : Int} {prior : St} {bcost : Int} (pool : List PTxn) : ∀ {g : GS}, Inv cfg date prior bcost g →
-    Inv cfg date prior bcost (iterate cfg date g pool).1 := by
+    Prov (fun q => q.bname = none) g →
+    Inv cfg date prior bcost (iterate cfg date g pool).1 ∧ Prov (fun q => q.bname = none) (iterate cfg date g pool).1 := by
   induction pool with
-  | nil => intro g h; exact h
+  | nil => intro g h hv; exact ⟨h, hv⟩
   | cons p ps ih =>
-    intro g h
-    have hp := iterHandler_inv p h
+    intro g h hv
+    have hp := iterHandler_inv p h hv
     unfold iterate
     rcases hi : iterHandler cfg date g p with ⟨g', ctl⟩
     rw [hi] at hp
     cases ctl with
-    | «continue» => exact ih hp
+    | «continue» => exact ih hp.1 hp.2
     | stop => exact hp
     | error => exact hp
 
 theorem currentLoop_inv {cfg : Cfg} {date : Int} {prior : St} {bcost : Int} (fuel : Nat) : ∀ (i : Nat) {g : GS}, Inv cfg date prior bcost g →
+    Prov (fun q => q.bname = none) g →
     Inv cfg date prior bcost (currentLoop cfg date fuel i g) := by
   induction fuel with
-  | zero => intro i g h; exact h
+  | zero => intro i g h _; exact h
   | succ n ih =>
-    intro i g h
+    intro i g h hv
     unfold currentLoop
     split
     · split
       · exact h
-      · rename_i p _
+      · rename_i p hp
+        have hbn : p.bname = none := hv.1 p (List.mem_of_getElem? hp)
         split
         · exact h
         · rename_i c hc
           split
           · exact h
           · rename_i hlt
+            have hv' := txnProcessor_prov (fun q => q.bname = none) cfg date g p hv hbn
             rcases txnProcessor_spec cfg date g p with ⟨hf, hu⟩ | ⟨ht, ha⟩
             · simp only [hf, Bool.false_eq_true, if_false]
-              exact ih _ (Inv_unchanged h hu)
+              exact ih _ (Inv_unchanged h hu) hv'
             · simp only [ht, if_true]
-              have := Inv_accept h ha hc hlt
+              have := Inv_accept h ha hc hbn hlt
               split
               · exact this
-              · exact ih _ this
+              · exact ih _ this hv'
     · exact h
 
 /-! ### the built-in phase -/
@@ -491,11 +658,11 @@ theorem poolPhase_inv (cfg : Cfg) (date : Int) (prior : St) (pool : List PTxn) (
     Inv cfg date prior (builtinsCost bi.list) (poolPhase cfg date prior pool bi fuel).1 := by
   have h0 : Inv cfg date prior (builtinsCost bi.list) (GS.init prior (builtinsCost bi.list)) :=
     Inv_init cfg date prior _ (by rw [builtinsCost_eq, wrap64_idem])
-  have h1 := iterate_inv pool h0
+  have h1 := iterate_inv pool h0 (by constructor <;> simp [GS.init])
   unfold poolPhase
   split
-  · exact h1
-  · exact currentLoop_inv fuel 0 h1
+  · exact h1.1
+  · exact currentLoop_inv fuel 0 h1.1 h1.2
 
 theorem generate_spec (cfg : Cfg) (date : Int) (prior : St) (pool : List PTxn) (bi : Builtins) (waitOver : Bool) (fuel : Nat) (g : GS)
     (h : generateAt cfg date prior pool bi waitOver fuel = .ok g) : GenSpec cfg date prior bi g := by
